@@ -8,20 +8,16 @@ import (
 	"bytes"
 	"encoding/json"
 	"os"
+	"path/filepath"
 
 	"github.com/cnotch/ipchub/utils/verifhook"
 )
 
 // EncodeJSONFile 编码 JSON 文件
+//
+// 先写临时文件并落盘，再原子地改名覆盖目标文件：
+// 进程在任何时刻被杀，目标文件要么是完整的旧内容，要么是完整的新内容。
 func EncodeJSONFile(path string, obj interface{}) error {
-	f, err := os.OpenFile(path, os.O_CREATE|os.O_TRUNC|os.O_WRONLY, os.ModePerm)
-	if err != nil {
-		return err
-	}
-
-	defer f.Close()
-	verifhook.Point("json.opened", path)
-
 	var formatted bytes.Buffer
 	body, err := json.Marshal(obj)
 	if err != nil {
@@ -32,8 +28,42 @@ func EncodeJSONFile(path string, obj interface{}) error {
 		return err
 	}
 
-	verifhook.Point("json.beforeWrite", path, f, formatted.Bytes())
-	if _, err := f.Write(formatted.Bytes()); err != nil {
+	tmp := path + ".tmp"
+	if err := writeFileSync(path, tmp, formatted.Bytes()); err != nil {
+		os.Remove(tmp)
+		return err
+	}
+
+	if err := os.Rename(tmp, path); err != nil {
+		os.Remove(tmp)
+		return err
+	}
+	verifhook.Point("json.renamed", path)
+
+	// 让改名本身也持久化
+	if d, err := os.Open(filepath.Dir(path)); err == nil {
+		d.Sync()
+		d.Close()
+	}
+	return nil
+}
+
+func writeFileSync(path, tmp string, content []byte) error {
+	f, err := os.OpenFile(tmp, os.O_CREATE|os.O_TRUNC|os.O_WRONLY, os.ModePerm)
+	if err != nil {
+		return err
+	}
+
+	defer f.Close()
+	verifhook.Point("json.opened", path)
+
+	// 保持被替换文件的权限
+	if fi, err := os.Stat(path); err == nil {
+		f.Chmod(fi.Mode().Perm())
+	}
+
+	verifhook.Point("json.beforeWrite", path, f, content)
+	if _, err := f.Write(content); err != nil {
 		return err
 	}
 	verifhook.Point("json.written", path)
